@@ -417,7 +417,38 @@ def run_limit_history(acc: Acc, case):
     last = {}
     for i, (op, arg) in enumerate(case["ops"]):
         try:
-            if op == "set_export":
+            if op == "set_export_failing":
+                # the write of this call gets no answer (transient): the call reports the failure, nothing is remembered as set
+                from goodwe.exceptions import InverterError
+                inner = inv._verif_responder
+
+                class _DropWrites:
+                    def respond(self, data):
+                        return None if is_write(data) else inner.respond(data)
+
+                    def __getattr__(self, name):
+                        return getattr(inner, name)
+
+                def is_write(data):
+                    if data[:2] == b"\xaa\x55":
+                        return data[4] in (2, 3)
+                    return (data[7] if len(data) > 8 and data[2:4] == b"\x00\x00" else data[1]) in (6, 16)
+                siminv.attach_direct(inv, _DropWrites())
+                try:
+                    run_sync(inv.set_grid_export_limit(arg))
+                    last["export"] = arg
+                except InverterError:
+                    pass
+                finally:
+                    siminv.attach_direct(inv, inner)
+            elif op == "external_export":
+                # another master (the vendor app) changes the limit behind the library's back: the registers are the truth
+                setting = inv._settings.get("grid_export_limit")
+                if setting is not None and isinstance(sim, siminv.ModbusSim):
+                    n = max(1, (setting.size_ + 1) // 2)
+                    sim.set_bytes(setting.offset, int(arg).to_bytes(2 * n, "big"))
+                    last["export"] = arg
+            elif op == "set_export":
                 run_sync(inv.set_grid_export_limit(arg))
                 last["export"] = arg
             elif op == "set_dod":
@@ -455,6 +486,12 @@ def limit_history_job(job):
     for a, b in ((0, 5000), (4000, 0), (123, 124), (65534, 1)):
         seqs.append([("get_export", 0), ("set_export", a), ("get_export", 0), ("set_export", b), ("get_export", 0), ("get_export", 0)])
         seqs.append([("settings", 0), ("set_export", a), ("get_export", 0), ("runtime", 0), ("set_export", b), ("settings", 0), ("get_export", 0)])
+    for a, b in ((3000, 5000), (0, 1), (4000, 4001)):
+        # a setter whose write is lost, repeated with the same value; a value changed externally, then set again to what was set before
+        seqs.append([("set_export", a), ("get_export", 0), ("set_export_failing", b), ("set_export", b), ("get_export", 0)])
+        seqs.append([("set_export_failing", b), ("set_export", b), ("get_export", 0), ("set_export", b), ("get_export", 0)])
+        seqs.append([("set_export", a), ("external_export", b), ("get_export", 0), ("set_export", a), ("get_export", 0)])
+        seqs.append([("set_export", a), ("external_export", b), ("set_export", a), ("get_export", 0)])
     if not dt:
         for a, b in ((0, 100), (80, 20), (99, 1), (50, 51)):
             seqs.append([("get_dod", 0), ("set_dod", a), ("get_dod", 0), ("set_dod", b), ("get_dod", 0)])
